@@ -333,6 +333,11 @@ func runC19(w *World, r *Report) {
 			if name == "" {
 				bad = "field " + f.Name() + " has no msgpack key"
 			}
+			if strings.Contains(tag, ",") {
+				// the encoder cuts the tag at the comma, the decoder of the other library takes the whole tag as the key:
+				// with an option the field is written under one key and looked up under another
+				bad = "field " + f.Name() + " carries a tag option (" + tag + "): the two msgpack libraries derive different keys from it"
+			}
 			if prev, dup := seen[name]; dup {
 				bad = "fields " + prev + " and " + f.Name() + " share the key " + name
 			}
